@@ -1,7 +1,7 @@
 //! The explicit, serialisable description of one simulated scenario. A replay file is a
 //! `Case`; `check(case)` is a pure function of it and of the code under test.
 
-use crate::world::{Delivery, Endless, Fault, SinkPlan};
+use crate::world::{Delivery, Endless, Fault, FilePlan, SinkPlan};
 use base64::Engine;
 use serde::{Deserialize, Deserializer, Serialize, Serializer};
 use std::collections::BTreeMap;
@@ -124,6 +124,10 @@ pub struct Case {
     pub err: SinkPlan,
     #[serde(default, skip_serializing_if = "Option::is_none")]
     pub endless: Option<Endless>,
+    /// delivery plans of simulated file arguments (hook H2); file i holds the bytes between
+    /// the (i-1)-th and the i-th cut of the stream
+    #[serde(default, skip_serializing_if = "Vec::is_empty")]
+    pub files: Vec<FilePlan>,
     #[serde(default)]
     pub hash_seeds: Vec<u64>,
     #[serde(default)]
@@ -147,6 +151,7 @@ impl Case {
             out: SinkPlan::default(),
             err: SinkPlan::default(),
             endless: None,
+            files: Vec::new(),
             hash_seeds: vec![0],
             params: BTreeMap::new(),
             strs: BTreeMap::new(),
